@@ -38,6 +38,20 @@ fn exercise(o: &ObjectFile) -> Option<(String, String)> {
         let _ = sim.load_obj_file(o);
     }));
     if let Err(m) = r { SIM.with(|s| *s.borrow_mut() = None); return Some((format!("panic:load:{}", panic_site(&m)), m)); }
+    // ... and into a simulator that is in use: it has loaded and run part of another program (observer, frames and counters are not empty),
+    // loads the file without a reset, steps on, and loads it once more
+    let r = catch(|| {
+        let mut sim = Simulator::new(SimFlags { machine_init: MachineInitStrategy::Known { value: 0 }, debug_frames: true, ..Default::default() });
+        if let Some(p) = partners().first() { let _ = sim.load_obj_file(p); }
+        for (k, w) in [0x2003u16, 0x3003, 0x4801, 0xF025, 0x1021, 0xC1C0].iter().enumerate() { sim.mem[0x3000 + k as u16].set(*w); }
+        sim.pc = 0x3000;
+        for _ in 0..3 { let _ = sim.step_in(); }
+        let _ = sim.load_obj_file(o);
+        let _ = sim.step_in();
+        let _ = sim.load_obj_file(o);
+        let _ = sim.run_with_limit(5);
+    });
+    if let Err(m) = r { return Some((format!("panic:load-into-used-simulator:{}", panic_site(&m)), format!("loading into a simulator that has run part of another program: {m}"))); }
     None
 }
 fn check_bin(bytes: &[u8]) -> (bool, Option<(String, String)>) {
